@@ -170,6 +170,27 @@ func (p *prober) checkStatSet(what string, refs []string, status int, got map[st
 	return nil
 }
 
+// partialCursors returns enumeration bounds that are not complete blobrefs: hash-name prefixes, a bound
+// above every ref, and for every universe blob its ref cut after a few digits and cut one digit short
+// (both sort just before the blob itself).
+func (p *prober) partialCursors() []string {
+	out := []string{"sha", "sha1-", "sha224-", "sha224-8", "sha3", "t"}
+	seen := map[string]bool{}
+	for _, c := range out {
+		seen[c] = true
+	}
+	for _, b := range p.u {
+		r := b.Ref.String()
+		for _, c := range []string{r[:len(r)-1], r[:strings.Index(r, "-")+4]} {
+			if !seen[c] {
+				seen[c] = true
+				out = append(out, c)
+			}
+		}
+	}
+	return out
+}
+
 func (p *prober) name(ref string) string {
 	for _, b := range p.u {
 		if b.Ref.String() == ref {
@@ -645,6 +666,25 @@ func (p *prober) checkEnum() *hs.Mismatch {
 			return mm("enumerate|after", "enumerate after=%s limit=2: got %s, want %s", b.Name, p.short(pg.blobs), p.short(w))
 		}
 	}
+	// cursors that are not complete blobrefs: the protocol defines "after" as a plain string bound
+	// ("only blobs GREATER THAN this"), which is what range-splitting clients rely on.
+	partial := p.partialCursors()
+	for _, after := range partial {
+		pg, err := p.rawEnum(after, "1000", "")
+		if err != nil {
+			return mm("enumerate|error", "enumerate after=%q: %v", after, err)
+		}
+		if pg.status != 200 {
+			return mm("enumerate|status", "enumerate after=%q: status %d", after, pg.status)
+		}
+		var w []string
+		for _, x := range p.ref.Enumerate(after, 1000) {
+			w = append(w, fmt.Sprintf("%s[%d]", x.Ref, len(x.Data)))
+		}
+		if strings.Join(pg.blobs, ",") != strings.Join(w, ",") {
+			return mm("enumerate|after-partial-ref", "enumerate after=%q: got %s, want %s", after, p.short(pg.blobs), p.short(w))
+		}
+	}
 	// through pkg/client
 	ctx := context.Background()
 	cl := p.s.Client
@@ -659,6 +699,7 @@ func (p *prober) checkEnum() *hs.Mismatch {
 	for _, b := range p.u {
 		cursors = append(cursors, b.Ref.String())
 	}
+	cursors = append(cursors, partial...)
 	for _, after := range cursors {
 		for _, limit := range []int{1, 2, 1000} {
 			got, err := collect(func(ch chan<- blob.SizedRef) error { return cl.EnumerateBlobs(ctx, ch, after, limit) })
